@@ -4,9 +4,12 @@
    The model (CA/Model.v) follows the code as it is at /repo HEAD, including the three repairs
    88c1fa0 (datacenter test for agent identities), b4828e2 (the agent host rewrite compares
    identities, not URL strings) and 6968ec2 (a root list whose active entry is overwritten by a
-   later entry with the same ID is refused).  One clause is still FALSE of the code and carries a
-   [_refuted] witness (known finding): a name with an encoded "/" can be issued with a URI that no
-   reader can parse back - never one that reads as a different identity (C12_no_confusion).
+   later entry with the same ID is refused).  Clauses still FALSE of the code carry a [_refuted]
+   witness and an open known finding: a name with an encoded "/" can be issued with a URI that no
+   reader can parse back (never one that reads as a different identity: C12_no_confusion); DNS/IP
+   SANs are copied unchecked (a service token gets the servers' DNS name); agent identities in a
+   partition and URIs with query/fragment/userinfo are issued verbatim; the auto-config entry point
+   has no datacenter test.
    "Chains to the currently active root" is not a theorem: X.509 is outside the model; the direct
    oracle checks crypto/x509 verification against the store's active root on every issued leaf. *)
 From Verif Require Import Base.Prelude.
@@ -43,8 +46,8 @@ Proof. exact issue_sound_full. Qed.
 
 (* The same with the code's case split visible: services, mesh gateways and servers keep the
    requested URI and their host is the trust domain; agents keep it when the host already is the
-   trust domain and get the re-printed identity otherwise; DNS/IP SANs are copied; the state
-   changes by the serial counter only. *)
+   trust domain and get the re-printed identity otherwise; the state changes by the serial counter
+   only. *)
 Theorem C12_issue_sound_detailed : forall e az c s crt s',
   sign_request e az c s = Ok (crt, s') ->
   exists u id,
@@ -52,9 +55,78 @@ Theorem C12_issue_sound_detailed : forall e az c s crt s',
     validate_supported id = true /\ granted az id /\ id_dc id = e_dc e /\
     (is_agent id = false -> lower (id_host id) = trust_domain e /\ c_uris crt = [u]) /\
     (is_agent id = true -> c_uris crt = [agent_cert_uri e u id]) /\
-    c_is_ca crt = false /\ c_dns crt = csr_dns c /\ c_ips crt = csr_ips c /\
-    c_serial crt = next_serial s /\ s' = incr_serial s.
-Proof. exact issue_sound. Qed.
+    c_is_ca crt = false /\ c_serial crt = next_serial s /\ s' = incr_serial s.
+Proof. exact issue_sound_detailed. Qed.
+
+(* The environment is not a free constant in the code: SignCertificate derives the trust domain
+   from the ClusterID of the STORED configuration on every request ([store_env]).  Signing does
+   not change it, and no command other than the two configuration writes (and a restore, which
+   drops a blank-provider configuration) does. *)
+Theorem C12_trust_domain_from_store : forall dc az c s crt s' e,
+  store_env dc s = Some e -> sign_request e az c s = Ok (crt, s') -> store_env dc s' = Some e.
+Proof. exact sign_keeps_env. Qed.
+
+Theorem C12_trust_domain_stable : forall dc s idx o,
+  match o with OpSetConfig _ | OpSetRootsAndConfig _ _ _ | OpSnapshotRestore => False | _ => True end ->
+  store_env dc (fst (step s idx o)) = store_env dc s.
+Proof. exact step_keeps_env. Qed.
+
+(* ---- clauses of "the certificate carries exactly that identity" that are FALSE of the code ---- *)
+
+(* The DNS names and IP addresses of the request are copied into the certificate unchecked (a fact
+   about ConsulProvider.Sign, not a soundness clause) ... *)
+Theorem C12_sans_copied : forall e az c s crt s',
+  sign_request e az c s = Ok (crt, s') -> c_dns crt = csr_dns c /\ c_ips crt = csr_ips c.
+Proof. exact sans_copied. Qed.
+
+(* ... so a token with service:write on "web" and no acl:write obtains a leaf that also carries
+   the DNS name designating the servers of the datacenter (open finding server-dns-san). *)
+Theorem C12_server_dns_san_refuted :
+  exists e az c s crt s' u svc,
+    sign_request e az c s = Ok (crt, s') /\ csr_uris c = [u] /\
+    parse_cert_uri u = Ok (IdService w_td "default" "default" "dc1" svc) /\
+    az_acl_write az = false /\ In "server.dc1.consul" (c_dns crt).
+Proof. exact server_dns_san_refuted. Qed.
+
+(* "supported identity" is weak for agents: validateSupportedIdentityScopesInCertificate accepts
+   an agent identity in ANY partition (upstream's own test demands it), and with the host already
+   in the trust domain the URI is issued verbatim (open finding agent-partition). *)
+Theorem C12_agent_partition_refuted :
+  exists e az c s crt s' u host ap dc agent,
+    sign_request e az c s = Ok (crt, s') /\ csr_uris c = [u] /\ c_uris crt = [u] /\
+    parse_cert_uri u = Ok (IdAgent host ap dc agent) /\ ap <> "default".
+Proof. exact agent_partition_refuted. Qed.
+
+(* A URI with a query, fragment or userinfo is not a SPIFFE ID, yet it is accepted and issued
+   verbatim: the decoration survives into the certificate (open finding decorated-uri). *)
+Theorem C12_decorated_uri_refuted :
+  exists e az c s crt s' u,
+    sign_request e az c s = Ok (crt, s') /\ csr_uris c = [u] /\ c_uris crt = [u] /\ u_plain u = false /\
+    u_plain (reparse u) = false.
+Proof. exact decorated_uri_refuted. Qed.
+
+(* ---- the second entry point: AutoConfig.InitialConfiguration -> CAManager.SignCertificate ---- *)
+
+(* _partial: what holds on that path - one URI, no e-mail, an agent identity for exactly the node
+   the JWT authorized, a certificate URI in the trust domain (the requested one or the re-printed
+   identity), not a CA, next serial.  There is NO datacenter clause ... *)
+Theorem C12_autoconfig_sound_partial : forall e node c s crt s',
+  autoconfig_sign e node c s = Ok (crt, s') ->
+  exists u host ap dc,
+    csr_uris c = [u] /\ csr_emails c = 0 /\ parse_cert_uri u = Ok (IdAgent host ap dc node) /\
+    c_uris crt = [agent_cert_uri e u (IdAgent host ap dc node)] /\
+    (exists u', c_uris crt = [u'] /\ lower (u_host u') = trust_domain e /\
+                (u' = u \/ u' = uri_of (IdAgent (trust_domain e) ap dc node))) /\
+    c_is_ca crt = false /\ c_serial crt = next_serial s /\ s' = incr_serial s.
+Proof. exact autoconfig_sound. Qed.
+
+(* ... because the code has no datacenter test there: a server of dc1 issues the agent identity
+   of dc2 (open finding foreign-datacenter-agent, entry autoconf; repair drafted under fixes/). *)
+Theorem C12_autoconfig_datacenter_refuted :
+  exists e node c s crt s' u host ap dc,
+    autoconfig_sign e node c s = Ok (crt, s') /\ csr_uris c = [u] /\
+    parse_cert_uri u = Ok (IdAgent host ap dc node) /\ c_uris crt = [u] /\ dc <> e_dc e.
+Proof. exact autoconfig_datacenter_refuted. Qed.
 
 (* ------------------------------------------------------------------ identities and their spelling *)
 
@@ -72,8 +144,9 @@ Theorem C12_unescape_escape : forall s, unescape (escape_path s) = Some s.
 Proof. exact unescape_escape. Qed.
 
 (* No confusion.  For every issued certificate whose request URL is as url.Parse produces it
-   ([url_wf]; escaped, case-varied, decorated spellings included): whatever identity ANY reader
-   obtains by parsing the certificate's URI SAN is [cert_identity] - the identity the ACL check
+   ([url_wf]; escaped, case-varied, decorated spellings included): whatever identity a reader that
+   parses the certificate's URI SAN the way consul does (url.Parse, then ParseCertURI: peers' proxies
+   configured by consul, consul's own authorize endpoint) obtains is [cert_identity] - the identity the ACL check
    was made for (host coerced and partition defaulted when the CA re-printed an agent URI) - so it has
    the same ACL scope and name, and the token that was presented grants write on it. *)
 Theorem C12_no_confusion : forall e az c s crt s',
@@ -84,6 +157,11 @@ Theorem C12_no_confusion : forall e az c s crt s',
     forall id2, parse_cert_uri (reparse u') = Ok id2 ->
       id2 = cert_identity e u id /\ scope_of id2 = scope_of id /\ granted az id2.
 Proof. exact no_confusion. Qed.
+
+(* [url_wf] is decidable; the boolean is evaluated on every URL crypto/x509 hands to the CA in the
+   correspondence run (Run/C12.v check_sign), which ties the hypothesis above to net/url. *)
+Theorem C12_url_wfb_sound : forall u, url_wfb u = true -> url_wf u.
+Proof. exact url_wfb_spec. Qed.
 
 (* The two readings of one URL agree: through the RawPath with per-segment unescaping (what the
    CA does) and through the decoded Path alone (what a reader of a re-encoded URI does). *)
@@ -188,6 +266,28 @@ Example C12_agent_example :
   sign_request w_env w_az (w_csr w_agent_dc2) empty_store = Err EDatacenter.
 Proof. exact agent_example. Qed.
 
+(* the auto-config path: issued for the authorized node, refused for another node or a non-agent *)
+Example C12_autoconfig_example :
+  autoconfig_sign w_env "n1" (w_csr w_agent_dummy) empty_store =
+    Ok (Cert [w_agent_td] [] [] false 1, incr_serial empty_store) /\
+  autoconfig_sign w_env "n2" (w_csr w_agent_dummy) empty_store = Err EWrongNode /\
+  autoconfig_sign w_env "web" (w_csr w_web) empty_store = Err ENotAgent.
+Proof. exact autoconfig_example. Qed.
+
+(* both arms of [C12_config_cas_honest] *)
+Example C12_config_cas_example :
+  let s := fst (step empty_store 3 (OpSetConfig (ConfigIn "consul" "c1" 0 7))) in
+  snd (step s 5 (OpSetConfig (ConfigIn "consul" "c1" 3 8))) = OBool true /\
+  step s 5 (OpSetConfig (ConfigIn "consul" "c1" 2 8)) = (s, OErr EConfigCAS).
+Proof. exact config_cas_example. Qed.
+
+(* [store_env]: the environment follows the stored ClusterID *)
+Example C12_store_env_example :
+  let s := fst (step empty_store 3 (OpSetConfig (ConfigIn "consul" "11111111-2222-3333-4444-555555555555" 0 7))) in
+  store_env "dc1" s = Some w_env /\
+  store_env "dc1" (fst (step s 4 (OpSetConfig (ConfigIn "consul" "c2" 0 7)))) = Some (CaEnv "dc1" "c2").
+Proof. exact store_env_example. Qed.
+
 (* well-formed identities exist for [C12_parse_print] *)
 Example C12_wf_id_example :
   wf_id (IdService w_td "default" "default" "dc1" "web") /\ wf_id (IdAgent w_td "default" "dc1" "n1") /\
@@ -203,6 +303,18 @@ Proof. exact (conj w_hist_reach w_hist_result). Qed.
 
 Print Assumptions C12_issue_sound.
 Print Assumptions C12_issue_sound_detailed.
+Print Assumptions C12_trust_domain_from_store.
+Print Assumptions C12_trust_domain_stable.
+Print Assumptions C12_sans_copied.
+Print Assumptions C12_server_dns_san_refuted.
+Print Assumptions C12_agent_partition_refuted.
+Print Assumptions C12_decorated_uri_refuted.
+Print Assumptions C12_autoconfig_sound_partial.
+Print Assumptions C12_autoconfig_datacenter_refuted.
+Print Assumptions C12_url_wfb_sound.
+Print Assumptions C12_autoconfig_example.
+Print Assumptions C12_config_cas_example.
+Print Assumptions C12_store_env_example.
 Print Assumptions C12_parse_print.
 Print Assumptions C12_parse_print_cert.
 Print Assumptions C12_unescape_escape.
